@@ -32,6 +32,9 @@ def obligations(tier):
                     for extra in ((0, 1) if pre == 2 else (0,)):
                         obs.append(Ob(id=f'{nm}/{n}x{m}npc{npc}/pre{pre}/t{t}/extra{extra}', harness='C01/predict.c', tus=T, defs={'HP_WHICH': which, 'HP_N': n, 'HP_M': m, 'HP_NPC': npc, 'HP_PRE': pre, 'HP_T': t, 'HP_EXTRA': extra},
                                       engine='real', unwind=8, timeout=to, clause='projection of new/training data; back-transformation', stubs=R, real={'nomissing': True}))
+    for which, nm in ((0, 'score_predictor'), (1, 'indvar_predictor')):
+        obs.append(Ob(id=f'{nm}_reused_output/2x2npc2', harness='C01/predict.c', tus=T, defs={'HP_WHICH': which, 'HP_N': 2, 'HP_M': 2, 'HP_NPC': 2, 'HP_PRE': 2, 'HP_T': 1, 'HP_EXTRA': 0, 'HP_PREFILL': 1},
+                      engine='real', unwind=8, timeout=to, clause='projection of new/training data; back-transformation', stubs=R, real={'nomissing': True}))
     for lem in (1, 2, 3, 4):
         for (n, m) in ([(2, 2), (3, 2), (3, 3)] if not th else [(2, 2), (3, 2), (3, 3), (4, 3), (2, 3)]):
             obs.append(Ob(id=f'lemma{lem}/{n}x{m}', harness='C01/lemmas.c', tus=['memwrapper'], defs={'HP_LEMMA': lem, 'HP_N': n, 'HP_M': m}, engine='real', unwind=6, timeout=to,
